@@ -490,7 +490,7 @@ func (r *contractRun) onMomentum(dm *nom.DetailedMomentum) {
 		if d.modelled {
 			c.Emit("K-call %s %s | %s", head, strings.Join(d.args, " "), outcome)
 		} else {
-			c.Emit("K-opaque %s %s", head, outcome)
+			c.Emit("K-opaque %s %s | ok", head, outcome)
 		}
 		if status == "1" && d.method == definition.UpdateMethodName {
 			switch b.Address {
